@@ -38,29 +38,32 @@ theorem relCols_getElem (eps : Rat) (f : Col → Rat) : ∀ (yt yp yb : Mat) (j 
           simp only [relCols, List.getElem_cons_succ]
           exact ih ps bs j' (by simpa using h1) (by simpa using h2) (by simpa using h3) _
 
-/-- a relative-error metric with the common skeleton (two target checks, optional weight-sum check, per-column value
-`colf hw (relative errors of the column)`, root degree possibly depending on the number of rows) -/
+/-- a relative-error metric with the common skeleton (two target checks, a data-independent condition `pre` on the
+horizon weights, optional weight-sum check, per-column value `colf hw (relative errors of the column)`, root degree
+possibly depending on the weights and the number of rows) -/
 def IsDirect3 (eps : Rat) (f : Mat → Mat → Mat → Option (List Rat) → MO → Except Err Out)
-    (hwOk : Option (List Rat) → Prop) (colf : Option (List Rat) → Col → Rat) (k : Nat → Nat) (needSum : Bool) : Prop :=
-  ∀ yt yp yb hw mo out, hwOk hw → (f yt yp yb hw mo = .ok out ↔
+    (pre : Option (List Rat) → Prop) (colf : Option (List Rat) → Col → Rat)
+    (k : Option (List Rat) → Nat → Nat) (needSum : Bool) : Prop :=
+  ∀ yt yp yb hw mo out, (f yt yp yb hw mo = .ok out ↔
     checkRegTargets yt yp mo = .ok () ∧ checkRegTargets yt yb mo = .ok () ∧ checkHw (nrows yt) hw = .ok () ∧
-    (needSum = true → checkSum hw = .ok ()) ∧
-    finish (k (nrows yt)) mo (relCols eps (colf hw) yt yp yb) = .ok out)
+    pre hw ∧ (needSum = true → checkSum hw = .ok ()) ∧
+    finish (k hw (nrows yt)) mo (relCols eps (colf hw) yt yp yb) = .ok out)
 
 theorem isDirect3_mrae (eps : Rat) : IsDirect3 eps (meanRelativeAbsoluteError eps) (fun _ => True)
-    (fun hw re => npAverage hw (re.map absR)) (fun _ => 1) true := by
-  intro yt yp yb hw mo out _; rw [mrae_iff]; simp
+    (fun hw re => npAverage hw (re.map absR)) (fun _ _ => 1) true := by
+  intro yt yp yb hw mo out; rw [mrae_iff]; simp
 theorem isDirect3_mdrae (eps : Rat) : IsDirect3 eps (medianRelativeAbsoluteError eps) (fun _ => True)
-    (fun hw re => medianW hw (re.map absR)) (fun _ => 1) false := by
-  intro yt yp yb hw mo out _; rw [mdrae_iff]; simp
-/-- the geometric means only without horizon weights (with weights the code broadcasts along the wrong axis) -/
-theorem isDirect3_gmrae (eps : Rat) : IsDirect3 eps (geometricMeanRelativeAbsoluteError eps) (fun hw => hw = none)
-    (fun _ re => prod (re.map (fun e => floorEps eps (absR e)))) (fun n => n) false := by
-  intro yt yp yb hw mo out h; subst h; rw [gmrae_iff]; simp [gmCols_none]
+    (fun hw re => medianW hw (re.map absR)) (fun _ _ => 1) false := by
+  intro yt yp yb hw mo out; rw [mdrae_iff]; simp
+theorem isDirect3_gmrae (eps : Rat) :
+    IsDirect3 eps (geometricMeanRelativeAbsoluteError eps) (fun hw => checkNonneg hw = .ok ())
+    (fun hw re => gmFactor hw (re.map (fun e => floorEps eps (absR e)))) (fun hw n => gmDeg n hw) true := by
+  intro yt yp yb hw mo out; rw [gmrae_iff]; simp
 theorem isDirect3_gmrse (eps : Rat) (sqrt : Bool) :
-    IsDirect3 eps (fun a b c h m => geometricMeanRelativeSquaredError eps a b c h m sqrt) (fun hw => hw = none)
-    (fun _ re => prod (re.map (fun e => floorEps eps (sqr e)))) (fun n => rootDeg sqrt n) false := by
-  intro yt yp yb hw mo out h; subst h; rw [gmrse_iff]; simp [gmCols_none]
+    IsDirect3 eps (fun a b c h m => geometricMeanRelativeSquaredError eps a b c h m sqrt)
+    (fun hw => checkNonneg hw = .ok ())
+    (fun hw re => gmFactor hw (re.map (fun e => floorEps eps (sqr e)))) (fun hw n => rootDeg sqrt (gmDeg n hw)) true := by
+  intro yt yp yb hw mo out; rw [gmrse_iff]; simp
 
 theorem checkRegTargets_single {yt yp : Mat} (h : checkRegTargets yt yp .raw = .ok ()) (hRt : Rect yt) (hRp : Rect yp)
     (j : Nat) (hjt : j < yt.length) (hjp : j < yp.length) :
@@ -75,19 +78,19 @@ theorem checkRegTargets_single {yt yp : Mat} (h : checkRegTargets yt yp .raw = .
   simpa [e1] using e2
 
 theorem direct3_raw_per_column {eps : Rat} {f : Mat → Mat → Mat → Option (List Rat) → MO → Except Err Out}
-    {hwOk : Option (List Rat) → Prop} {colf : Option (List Rat) → Col → Rat} {k : Nat → Nat} {ns : Bool}
-    (hd : IsDirect3 eps f hwOk colf k ns) (yt yp yb : Mat) (hw : Option (List Rat)) (hok : hwOk hw) (qs : List Rat)
-    (hRt : Rect yt) (hRp : Rect yp) (hRb : Rect yb) (h : f yt yp yb hw .raw = .ok (.raw (k (nrows yt)) qs))
+    {pre : Option (List Rat) → Prop} {colf : Option (List Rat) → Col → Rat} {k : Option (List Rat) → Nat → Nat}
+    {ns : Bool} (hd : IsDirect3 eps f pre colf k ns) (yt yp yb : Mat) (hw : Option (List Rat)) (qs : List Rat)
+    (hRt : Rect yt) (hRp : Rect yp) (hRb : Rect yb) (h : f yt yp yb hw .raw = .ok (.raw (k hw (nrows yt)) qs))
     (j : Nat) (hjt : j < yt.length) (hjp : j < yp.length) (hjb : j < yb.length) :
     ∃ hq : j < qs.length,
-      f [yt[j]] [yp[j]] [yb[j]] hw .uniform = .ok (.avg (k (nrows yt)) none [qs[j]]) := by
-  obtain ⟨h1, h1', h2, h3, h4⟩ := (hd _ _ _ _ _ _ hok).mp h
+      f [yt[j]] [yp[j]] [yb[j]] hw .uniform = .ok (.avg (k hw (nrows yt)) none [qs[j]]) := by
+  obtain ⟨h1, h1', h2, hpre, h3, h4⟩ := (hd _ _ _ _ _ _).mp h
   simp only [finish, Except.ok.injEq, Out.raw.injEq, true_and] at h4
   subst h4
   have hlen : j < (relCols eps (colf hw) yt yp yb).length := by rw [relCols_length]; omega
   obtain ⟨c1, n1⟩ := checkRegTargets_single h1 hRt hRp j hjt hjp
   obtain ⟨c2, _⟩ := checkRegTargets_single h1' hRt hRb j hjt hjb
-  refine ⟨hlen, (hd _ _ _ _ _ _ hok).mpr ⟨c1, c2, by rw [n1]; exact h2, h3, ?_⟩⟩
+  refine ⟨hlen, (hd _ _ _ _ _ _).mpr ⟨c1, c2, by rw [n1]; exact h2, hpre, h3, ?_⟩⟩
   rw [n1, relCols_getElem eps (colf hw) yt yp yb j hjt hjp hjb hlen]
   simp [finish, relCols]
 
